@@ -161,11 +161,12 @@ def r4(ctx, prog):
     if ok:
         for c in cl + dl:
             gs = d.cfg.controlling_branches(q.pt(d, c))
-            z = any('detail_.ref_count' in q.subtree_paths(d, g) and d.s(d.strip_casts(g)).get('op') == '==' and k == 0 and d.s(d.strip_casts(d.s(d.strip_casts(g))['ch'][1])).get('cv') == 0 for g, k, b in gs)
+            z = any(q.edge_says(d, g, k, lambda l: l.endswith('detail_.ref_count'), ('==',), lambda r: r == '0') for g, k, b in gs)
             ok = ok and z and d.cfg.dominates(q.pt(d, dec[0]), q.pt(d, c))
         for c in cl:
             gs = d.cfg.controlling_branches(q.pt(d, c))
-            ok = ok and any('detail_.fd' in q.subtree_paths(d, g) and d.s(d.strip_casts(g)).get('op') == '>=' and k == 0 for g, k, b in gs)
+            ok = ok and any(q.edge_says(d, g, k, lambda l: l.endswith('detail_.fd'), ('>=',), lambda r: r == '0') or
+                            q.edge_says(d, g, k, lambda l: l.endswith('detail_.fd'), ('>',), lambda r: r == '-1') for g, k, b in gs)
     ctx.ob('C08.R4', '%s|last-release-closes' % d.name, ok, 'one decrement; close and delete only under ref_count == 0 (close also under fd >= 0)', where=d.loc(d.body))
     c = prog.fn1(FD + '::close')
     mark = [st for st in c.stmts if st and st['k'] == 'BinaryOperator' and st.get('op') == '=' and c.path(st['ch'][0]) == 'detail_.fd' and c.s(c.strip_casts(st['ch'][1])).get('cv') == -1]
